@@ -68,6 +68,9 @@ def make_cx(prog, udom="u4", bdom="b3", **kw):
     kinds = used_args(prog)
     n = (max(kinds) + 1) if kinds else 0
     args = [(udom if kinds.get(j, "u") == "u" else bdom) for j in range(n)]
+    if prog.get("argdoms") is not None:          # explicit boundary-value domains per argument (operator sweep)
+        given = list(prog["argdoms"])
+        args = given + args[len(given):]
     uses_gs = any(nd["k"] in ("GGet", "MV") for nd in gen.prog_nodes(prog))
     gss = [[]]
     if uses_gs:
